@@ -768,7 +768,9 @@ fn run_case(case: &J) -> J {
                             }
                         }
                     } else if wants("C05") {
-                        failures.push(fail("C05", rec.step, format!("the result handed back under the pending id {} was not applied to its call (reported as unprocessed)", id), "result-not-consumed"));
+                        let in_fold = books[p].issued.get(id).map(|r| stream_fold_sites.contains(&r.function)).unwrap_or(false);
+                        let key = if in_fold { "stream-fold-cursor-hole-loses-call" } else { "result-not-consumed" };
+                        failures.push(fail("C05", rec.step, format!("the result handed back under the pending id {} was not applied to its call (reported as unprocessed)", id), key));
                     }
                 }
             }
